@@ -857,6 +857,20 @@ impl Driver {
                     bytes[n - 4..].copy_from_slice(&crc.to_be_bytes());
                 }
             }
+            "double_fp" => {
+                // the message's own FINGERPRINT is wrong; a second FINGERPRINT attribute follows that is
+                // right for everything before it (the first one is the one that counts)
+                let n = bytes.len();
+                if n >= 28 && bytes[n - 8..n - 4] == [0x80, 0x28, 0x00, 0x04] {
+                    bytes[n - 1] ^= 0x01;
+                    bytes.extend_from_slice(&[0x80, 0x28, 0x00, 0x04, 0, 0, 0, 0]);
+                    let l = (bytes.len() - 20) as u16;
+                    bytes[2..4].copy_from_slice(&l.to_be_bytes());
+                    let m = bytes.len();
+                    let crc = obs::crc32(&bytes[..m - 8]) ^ obs::FP_XOR;
+                    bytes[m - 4..].copy_from_slice(&crc.to_be_bytes());
+                }
+            }
             "reuse_fp" => {
                 // a FINGERPRINT value that was right for an earlier, different message with this id
                 let n = bytes.len();
